@@ -111,8 +111,15 @@ func startThread(fn func()) *thread {
 // Go starts a managed goroutine from instrumented code (`go f()` is rewritten to vsched.Go).
 // The new thread is created parked at the pseudo operation "go-start"; its first step runs its
 // body up to its first schedule point.
+// PlainGo: when set (by a driver, before Run), Go starts fn as an ordinary unmanaged goroutine even during a
+// Run. For code whose spawned goroutines touch no shared state through the wrappers and are joined through a
+// channel by the spawning thread within the same step (registry.go's Describe goroutines): a managed thread
+// parked at go-start could never be granted there, because the spawner blocks on the channel while it holds
+// the baton. Default false.
+var PlainGo bool
+
 func Go(fn func()) {
-	if atomic.LoadInt32(&active) == 0 {
+	if atomic.LoadInt32(&active) == 0 || PlainGo {
 		go fn()
 		return
 	}
